@@ -41,7 +41,12 @@ def _get_uses_of(node: ast.AST, scope: ast.AST, source: str) -> Iterable[ast.Nam
     if all(usage is node for usage in core.walk(scope, ast.Name(id=name))):
         return
 
-    is_maybe_unordered_scope = isinstance(scope, (ast.Module, ast.ClassDef, ast.While, ast.For))
+    # Code that comes first in the text may run later: in loops, and in functions defined before
+    # the variable is assigned but called after it
+    is_maybe_unordered_scope = isinstance(
+        scope,
+        (ast.Module, ast.ClassDef, ast.While, ast.For, ast.FunctionDef, ast.AsyncFunctionDef),
+    )
 
     # Prevent renaming variables in function scopes
     blacklisted_names = set()
